@@ -515,8 +515,14 @@ const PROTECTED_QUOTE: char = '\u{e002}';
 const PROTECTED_BACKSLASH: char = '\u{e003}';
 
 fn protect_value(val: &str) -> String {
-    val.replace("$(", &format!("{}(", PROTECTED_DOLLAR))
-        .replace('`', &PROTECTED_BACKQUOTE.to_string())
+    let mut result = val.replace("$(", &format!("{}(", PROTECTED_DOLLAR))
+        .replace('`', &PROTECTED_BACKQUOTE.to_string());
+    if result.ends_with('$') {
+        // (a `(` written after the reference must not complete a `$(`)
+        result.pop();
+        result.push(PROTECTED_DOLLAR);
+    }
+    result
 }
 
 /// The value of a positional parameter that is pasted between double quotes
